@@ -2175,7 +2175,10 @@ static Node *to_assign(Node *binary) {
   Token *tok = binary->tok;
 
   // Convert `A.x op= C` to `tmp = &A, (*tmp).x = (*tmp).x op C`.
-  if (binary->lhs->kind == ND_MEMBER) {
+  // (An atomic member that is not a bit-field is handled below like any
+  // other atomic object; its address can be taken.)
+  if (binary->lhs->kind == ND_MEMBER &&
+      !(binary->lhs->ty->is_atomic && !binary->lhs->member->is_bitfield)) {
     Obj *var = new_lvar("", pointer_to(binary->lhs->lhs->ty));
 
     Node *expr1 = new_binary(ND_ASSIGN, new_var_node(var, tok),
